@@ -315,6 +315,11 @@ func (a *Analysis) evaluate() []Violation {
 		switch v.Rule {
 		case "C01.same", "C01.once", "C02.one", "C02.isolated", "C03.fresh":
 			a.vs = append(a.vs, Violation{Prop: "C09", Rule: "C09.lifetime", Shape: v.Rule + "/" + v.Shape, Msg: v.Msg})
+			if strings.Contains(v.Msg, "arg of ") && (v.Rule == "C02.isolated" || v.Rule == "C03.fresh" || v.Rule == "C02.one") {
+				// a constructor argument that belongs to another request (another scope's instance, a
+				// transient handed to somebody else): the parameter did not receive ITS instance
+				a.vs = append(a.vs, Violation{Prop: "C04", Rule: "C04.args", Shape: "crossed/" + v.Rule, Msg: v.Msg})
+			}
 		}
 	}
 	return a.vs
